@@ -5,82 +5,6 @@ set_option linter.unusedSimpArgs false
 namespace DFV.C05
 open DFV DFV.C04
 
-/-- reversing a run negates the first-derivative stencil (and mirrors the position) -/
-theorem d1At_reverse (h : Rat) (L : Nat) (g : Nat → Rat) (i : Nat) (hi : i < L) :
-    d1At h L (fun k => g (L - 1 - k)) i = - d1At h L g (L - 1 - i) := by
-  unfold d1At
-  by_cases h1 : L < 2
-  · simp [h1]
-  · by_cases h2 : L = 2
-    · subst h2
-      simp only [show ¬ ((2 : Nat) < 2) by omega, if_false, if_true]
-      simp only [show 2 - 1 - 1 = 0 by rfl, show 2 - 1 - 0 = 1 by rfl]
-      ring
-    · simp only [h1, h2, if_false]
-      by_cases h3 : i = 0
-      · subst h3
-        have e1 : ¬ (L - 1 - 0 = 0) := by omega
-        have e2 : L - 1 - 0 = L - 1 := by omega
-        have e3 : ¬ (L - 1 = 0) := by omega
-        simp only [if_true, e1, if_false, e2, e3]
-        have a1 : L - 1 - 1 = L - 2 := by omega
-        have a2 : L - 1 - 2 = L - 3 := by omega
-        rw [a1, a2]
-        ring
-      · by_cases h4 : i = L - 1
-        · subst h4
-          have e0 : L - 1 - (L - 1) = 0 := by omega
-          simp only [h3, if_false, if_true, e0]
-          have a1 : L - 1 - (L - 2) = 1 := by omega
-          have a2 : L - 1 - (L - 3) = 2 := by omega
-          rw [a1, a2]
-          ring
-        · have e1 : ¬ (L - 1 - i = 0) := by omega
-          have e2 : ¬ (L - 1 - i = L - 1) := by omega
-          simp only [h3, h4, e1, e2, if_false]
-          have a1 : L - 1 - (i + 1) = L - 1 - i - 1 := by omega
-          have a2 : L - 1 - (i - 1) = L - 1 - i + 1 := by omega
-          rw [a1, a2]
-          ring
-
-/-- reversing a run mirrors the second-derivative stencil -/
-theorem d2At_reverse (h : Rat) (L : Nat) (g : Nat → Rat) (i : Nat) (hi : i < L) :
-    d2At h L (fun k => g (L - 1 - k)) i = d2At h L g (L - 1 - i) := by
-  unfold d2At
-  by_cases h1 : L < 3
-  · simp [h1]
-  · by_cases h2 : L = 3
-    · subst h2
-      simp only [show ¬ ((3 : Nat) < 3) by omega, if_false, if_true]
-      simp only [show 3 - 1 - 0 = 2 by rfl, show 3 - 1 - 1 = 1 by rfl, show 3 - 1 - 2 = 0 by rfl]
-      ring
-    · simp only [h1, h2, if_false]
-      by_cases h3 : i = 0
-      · subst h3
-        have e1 : ¬ (L - 1 - 0 = 0) := by omega
-        have e2 : L - 1 - 0 = L - 1 := by omega
-        have e3 : ¬ (L - 1 = 0) := by omega
-        simp only [if_true, e1, if_false, e2, e3]
-        have a1 : L - 1 - 1 = L - 2 := by omega
-        have a2 : L - 1 - 2 = L - 3 := by omega
-        have a3 : L - 1 - 3 = L - 4 := by omega
-        rw [a1, a2, a3]
-      · by_cases h4 : i = L - 1
-        · subst h4
-          have e0 : L - 1 - (L - 1) = 0 := by omega
-          simp only [h3, if_false, if_true, e0]
-          have a1 : L - 1 - (L - 2) = 1 := by omega
-          have a2 : L - 1 - (L - 3) = 2 := by omega
-          have a3 : L - 1 - (L - 4) = 3 := by omega
-          rw [a1, a2, a3]
-        · have e1 : ¬ (L - 1 - i = 0) := by omega
-          have e2 : ¬ (L - 1 - i = L - 1) := by omega
-          simp only [h3, h4, e1, e2, if_false]
-          have a1 : L - 1 - (i + 1) = L - 1 - i - 1 := by omega
-          have a2 : L - 1 - (i - 1) = L - 1 - i + 1 := by omega
-          rw [a1, a2]
-          ring
-
 theorem swapAt_length {α} [Inhabited α] (xs : List α) (a b : Nat) : (swapAt xs a b).length = xs.length := by
   unfold swapAt; rw [setAt_length, setAt_length]
 
@@ -412,11 +336,6 @@ theorem rot90Fld_scalar (f R : Fld) (a b : Nat) (wf : MeshWf f) (tw : TurnWf f a
       rw [wf.data_shape]
 
 
-theorem setAt_setAt_same {α} (l : List α) (k : Nat) (u v : α) : setAt (setAt l k u) k v = setAt l k v := by
-  induction l generalizing k with
-  | nil => simp [setAt]
-  | cons x xs ih => cases k <;> simp [setAt, ih]
-
 theorem lineD_smul (p : Bool) (o : Nat) (h : Rat) (L : Nat) (s : Rat) (g : Nat → Rat) (i : Nat) :
     lineD p o h L (fun k => s * g k) i = s * lineD p o h L g i := by
   obtain ⟨a0, a1, a2, a3, s0, s1, s2, s3, hA⟩ := lineD_taps p o h L i
@@ -472,71 +391,107 @@ theorem lineD_reverse (p : Bool) (o : Nat) (h : Rat) (L : Nat) (g : Nat → Rat)
 theorem fullyValid_rot {f R : Fld} {a b : Nat} (hr : IsRot90 f R a b) (hf : FullyValid f) : FullyValid R :=
   fun i => by obtain ⟨j, hj⟩ := hr.valid i; rw [hj]; exact hf j
 
+theorem tab_reverse {α} (n : Nat) (g : Nat → α) : (tab n g).reverse = tab n (fun j => g (n - 1 - j)) := by
+  apply List.ext_getElem
+  · simp
+  · intro i h1 h2
+    have hi : i < n := by simpa using h1
+    rw [List.getElem_reverse, getElem_tab, getElem_tab]
+    simp only [tab_length]
+
+theorem tab_map {α β} (n : Nat) (g : Nat → α) (φ : α → β) : (tab n g).map φ = tab n (fun j => φ (g j)) := by
+  unfold tab; simp
+
+/-- entry of a reversed, scaled list -/
+theorem getD_map_reverse (Y : List Rat) (σ : Rat → Rat) (i : Nat) (hi : i < Y.length) :
+    ((Y.map σ).reverse).getD i 0 = σ (Y.getD (Y.length - 1 - i) 0) := by
+  rw [List.getD_eq_getElem?_getD, List.getElem?_reverse (by simpa using hi), List.length_map, List.getElem?_map,
+    List.getD_eq_getElem?_getD, List.getElem?_eq_getElem (by omega)]
+  rfl
+
+theorem getD_map_mul (Y : List Rat) (s : Rat) (k : Nat) : (Y.map (s * ·)).getD k 0 = s * Y.getD k 0 := by
+  simp only [List.getD_eq_getElem?_getD, List.getElem?_map]
+  cases Y[k]? <;> simp
+
+/-- `D` in terms of the cells of the line -/
+theorem D_eq_cells (f : Fld) (ax o c : Nat) (i : List Nat) :
+    D f ax o c i = (diffLine' (periodic f ax) true o (f.mesh.cellAt ax) (lineCells f ax i c)).getD (i.getD ax 0) 0 := rfl
+
 /-- derivative of the turned field along the FIRST axis of the plane = (sign) derivative of the
-original along the SECOND axis at the cell the value came from: the line is the old line
-along `b`, run backwards -/
-theorem D_rot_a (f R : Fld) (a b c c' o : Nat) (s : Rat) (i : List Nat) (hr : IsRot90 f R a b) (hf : FullyValid f)
-    (ho : o = 1 ∨ o = 2) (hab : a ≠ b) (hla : a < i.length) (hlb : b < i.length)
+original along the SECOND axis at the cell the value came from: the line (values AND validity) is
+the old line along `b`, run backwards — every mask -/
+theorem D_rot_a (f R : Fld) (a b c c' o : Nat) (s : Rat) (i : List Nat) (hr : IsRot90 f R a b)
+    (hab : a ≠ b) (hla : a < i.length) (hlb : b < i.length)
     (hia : i.getD a 0 < f.mesh.nAt b)
-    (hdata : ∀ i', (R.data.get i').getD c 0 = s * (f.data.get (rotIdx f a b i')).getD c' 0) :
+    (hdata : ∀ i', (R.data.get i').getD c 0 = s * (f.data.get (rotIdx f a b i')).getD c' 0)
+    (hvalid : ∀ i', R.valid.get i' = f.valid.get (rotIdx f a b i')) :
     D R a o c i = revSign o * s * D f b o c' (rotIdx f a b i) := by
   have hrb : (rotIdx f a b i).getD b 0 = f.mesh.nAt b - 1 - i.getD a 0 := by
     unfold rotIdx; rw [getD_setAt_same _ _ _ _ (by rw [setAt_length]; exact hlb)]
-  rw [D_all_valid R a o c i ho (fun j _ => fullyValid_rot hr hf _) (by rw [hr.n_a]; exact hia),
-      D_all_valid f b o c' _ ho (fun j _ => hf _) (by rw [hrb]; omega)]
-  rw [hr.per_a, hr.h_a, hr.n_a, hrb]
-  have step : (fun j => (R.data.line a i j).getD c 0)
-      = fun k => s * (fun l => (f.data.line b (rotIdx f a b i) l).getD c' 0) (f.mesh.nAt b - 1 - k) := by
-    funext k
-    unfold NDA.line
-    rw [hdata]
-    congr 2
+  have hidx : ∀ k, rotIdx f a b (setAt i a k) = setAt (rotIdx f a b i) b (f.mesh.nAt b - 1 - k) := by
+    intro k
     unfold rotIdx
     rw [getD_setAt_ne _ _ _ _ _ (Ne.symm hab), getD_setAt_same _ _ _ _ hla, setAt_setAt_same, setAt_setAt_same]
-  rw [step, lineD_smul, lineD_reverse (periodic f b) o (f.mesh.cellAt b) (f.mesh.nAt b)
-    (fun l => (f.data.line b (rotIdx f a b i) l).getD c' 0) (i.getD a 0) hia]
+  have hcells : lineCells R a i c
+      = ((lineCells f b (rotIdx f a b i) c').map fun p => (s * p.1, p.2)).reverse := by
+    unfold lineCells
+    rw [tab_map, tab_reverse, hr.n_a]
+    apply tab_congr
+    intro j hj
+    unfold NDA.line
+    rw [hdata, hvalid, hidx]
+  rw [D_eq_cells, D_eq_cells, hcells, diffLine'_reverse, diffLine'_smul, hr.per_a, hr.h_a, hrb]
+  rw [List.map_map, getD_map_reverse _ _ _ (by rw [diffLine'_length, lineCells_length]; exact hia),
+    diffLine'_length, lineCells_length]
+  simp only [Function.comp]
   ring
 
 /-- … along the SECOND axis of the plane = derivative of the original along the FIRST axis -/
-theorem D_rot_b (f R : Fld) (a b c c' o : Nat) (s : Rat) (i : List Nat) (hr : IsRot90 f R a b) (hf : FullyValid f)
-    (ho : o = 1 ∨ o = 2) (hab : a ≠ b) (hla : a < i.length) (hlb : b < i.length)
-    (hib : i.getD b 0 < f.mesh.nAt a)
-    (hdata : ∀ i', (R.data.get i').getD c 0 = s * (f.data.get (rotIdx f a b i')).getD c' 0) :
+theorem D_rot_b (f R : Fld) (a b c c' o : Nat) (s : Rat) (i : List Nat) (hr : IsRot90 f R a b)
+    (hab : a ≠ b) (hla : a < i.length) (hlb : b < i.length)
+    (hdata : ∀ i', (R.data.get i').getD c 0 = s * (f.data.get (rotIdx f a b i')).getD c' 0)
+    (hvalid : ∀ i', R.valid.get i' = f.valid.get (rotIdx f a b i')) :
     D R b o c i = s * D f a o c' (rotIdx f a b i) := by
   have hra : (rotIdx f a b i).getD a 0 = i.getD b 0 := by
     unfold rotIdx; rw [getD_setAt_ne _ _ _ _ _ hab, getD_setAt_same _ _ _ _ hla]
-  rw [D_all_valid R b o c i ho (fun j _ => fullyValid_rot hr hf _) (by rw [hr.n_b]; exact hib),
-      D_all_valid f a o c' _ ho (fun j _ => hf _) (by rw [hra]; exact hib)]
-  rw [hr.per_b, hr.h_b, hr.n_b, hra, ← lineD_smul]
-  apply lineD_congr
-  intro k
-  unfold NDA.line
-  rw [hdata]
-  congr 2
-  unfold rotIdx
-  rw [getD_setAt_same _ _ _ _ hlb, getD_setAt_ne _ _ _ _ _ hab]
-  rw [setAt_comm _ b a _ _ (Ne.symm hab), setAt_setAt_same]
-  rw [setAt_comm (setAt i a (i.getD b 0)) b a _ _ (Ne.symm hab), setAt_setAt_same]
+  have hidx : ∀ k, rotIdx f a b (setAt i b k) = setAt (rotIdx f a b i) a k := by
+    intro k
+    unfold rotIdx
+    rw [getD_setAt_same _ _ _ _ hlb, getD_setAt_ne _ _ _ _ _ hab]
+    rw [setAt_comm _ b a _ _ (Ne.symm hab), setAt_setAt_same]
+    rw [setAt_comm (setAt i a (i.getD b 0)) b a _ _ (Ne.symm hab), setAt_setAt_same]
+  have hcells : lineCells R b i c = (lineCells f a (rotIdx f a b i) c').map fun p => (s * p.1, p.2) := by
+    unfold lineCells
+    rw [tab_map, hr.n_b]
+    apply tab_congr
+    intro j hj
+    unfold NDA.line
+    rw [hdata, hvalid, hidx]
+  rw [D_eq_cells, D_eq_cells, hcells, diffLine'_smul, hr.per_b, hr.h_b, hra]
+  exact getD_map_mul _ _ _
 
 /-- … along an axis outside the plane: unchanged -/
-theorem D_rot_e (f R : Fld) (a b e c c' o : Nat) (s : Rat) (i : List Nat) (hr : IsRot90 f R a b) (hf : FullyValid f)
-    (ho : o = 1 ∨ o = 2) (he : e < f.mesh.ndim) (hea : e ≠ a) (heb : e ≠ b)
-    (hie : i.getD e 0 < f.mesh.nAt e)
-    (hdata : ∀ i', (R.data.get i').getD c 0 = s * (f.data.get (rotIdx f a b i')).getD c' 0) :
+theorem D_rot_e (f R : Fld) (a b e c c' o : Nat) (s : Rat) (i : List Nat) (hr : IsRot90 f R a b)
+    (he : e < f.mesh.ndim) (hea : e ≠ a) (heb : e ≠ b)
+    (hdata : ∀ i', (R.data.get i').getD c 0 = s * (f.data.get (rotIdx f a b i')).getD c' 0)
+    (hvalid : ∀ i', R.valid.get i' = f.valid.get (rotIdx f a b i')) :
     D R e o c i = s * D f e o c' (rotIdx f a b i) := by
   have hre : (rotIdx f a b i).getD e 0 = i.getD e 0 := by
     unfold rotIdx; rw [getD_setAt_ne _ _ _ _ _ heb, getD_setAt_ne _ _ _ _ _ hea]
-  rw [D_all_valid R e o c i ho (fun j _ => fullyValid_rot hr hf _) (by rw [hr.n_e e hea heb]; exact hie),
-      D_all_valid f e o c' _ ho (fun j _ => hf _) (by rw [hre]; exact hie)]
-  rw [hr.per_e e he hea heb, hr.h_e e hea heb, hr.n_e e hea heb, hre, ← lineD_smul]
-  apply lineD_congr
-  intro k
-  unfold NDA.line
-  rw [hdata]
-  congr 2
-  unfold rotIdx
-  rw [getD_setAt_ne _ _ _ _ _ (Ne.symm heb), getD_setAt_ne _ _ _ _ _ (Ne.symm hea)]
-  rw [setAt_comm i e a _ _ hea, setAt_comm _ e b _ _ heb]
+  have hidx : ∀ k, rotIdx f a b (setAt i e k) = setAt (rotIdx f a b i) e k := by
+    intro k
+    unfold rotIdx
+    rw [getD_setAt_ne _ _ _ _ _ (Ne.symm heb), getD_setAt_ne _ _ _ _ _ (Ne.symm hea)]
+    rw [setAt_comm i e a _ _ hea, setAt_comm _ e b _ _ heb]
+  have hcells : lineCells R e i c = (lineCells f e (rotIdx f a b i) c').map fun p => (s * p.1, p.2) := by
+    unfold lineCells
+    rw [tab_map, hr.n_e e hea heb]
+    apply tab_congr
+    intro j hj
+    unfold NDA.line
+    rw [hdata, hvalid, hidx]
+  rw [D_eq_cells, D_eq_cells, hcells, diffLine'_smul, hr.per_e e he hea heb, hr.h_e e hea heb, hre]
+  exact getD_map_mul _ _ _
 
 theorem binop_shape {op : Rat → Rat → Rat} {a b g : Fld} (h : binop op a b = .ok g) : g.data.shape = a.data.shape := by
   unfold binop at h
@@ -1328,5 +1283,37 @@ theorem laplace_vector_shape_len {f g : Fld} {vs : List String} (hn : 2 ≤ f.nv
     have h00 := e 0 hpos (by simp)
     simp only [List.getElem_cons_zero] at h00
     exact lapComp_shape h00
+
+/-- what every accepted quarter turn produces, scalar or vector: the turned mesh, `np.rot90` of the
+validity, the array shape with the two axes exchanged, component count and unit kept -/
+theorem rot90Fld_parts (f R : Fld) (a b : Nat) (hd : DimsOk f) (ha : a < f.mesh.ndim) (hb : b < f.mesh.ndim)
+    (h : rot90Fld f (f.mesh.region.dims.getD a "") (f.mesh.region.dims.getD b "") = .ok R) :
+    rotMesh f.mesh (f.mesh.region.dims.getD a "") (f.mesh.region.dims.getD b "") = .ok R.mesh ∧
+    R.valid = rot90Arr f.valid a b ∧ R.data.shape = swapAt f.data.shape a b ∧ R.nvdim = f.nvdim ∧ R.unit = f.unit := by
+  unfold rot90Fld at h
+  split at h
+  · cases h
+  · rename_i mesh' hmesh
+    rw [indexOf?_getD _ a hd.2 (by rw [hd.1]; exact ha), indexOf?_getD _ b hd.2 (by rw [hd.1]; exact hb)] at h
+    simp only [] at h
+    split at h
+    · split at h
+      · obtain ⟨m1, m2, m3, m4, m5, _⟩ := mkFld_ok h
+        exact ⟨by rw [m1]; exact hmesh, m4, by rw [m3], m2, m5⟩
+      · cases h
+    · obtain ⟨m1, m2, m3, m4, m5, _⟩ := mkFld_ok h
+      exact ⟨by rw [m1]; exact hmesh, m4, by rw [m3]; rfl, m2, m5⟩
+
+/-- validity flags are moved like the values -/
+theorem rot90Fld_valid (f R : Fld) (a b : Nat) (hd : DimsOk f) (hvs : f.valid.shape = f.mesh.n)
+    (ha : a < f.mesh.ndim) (hb : b < f.mesh.ndim)
+    (h : rot90Fld f (f.mesh.region.dims.getD a "") (f.mesh.region.dims.getD b "") = .ok R) :
+    ∀ i, R.valid.get i = f.valid.get (rotIdx f a b i) := by
+  obtain ⟨_, hv, _⟩ := rot90Fld_parts f R a b hd ha hb h
+  intro i
+  rw [hv]
+  unfold rot90Arr rotIdx Mesh.nAt
+  simp only []
+  rw [hvs]
 
 end DFV.C05
